@@ -96,7 +96,9 @@ Definition good_slot (cp : Z) (s : slot) : Prop :=
   s_pos s mod cp + s_span s <= cp /\
   (if is_pad s
    then s_body s = [] /\ s_len s = s_span s /\ (s_pos s + s_span s) mod cp = 0
-   else valid_cmd (s_type s) = true /\ s_len s = Z.of_nat (length (s_body s)) + 8).
+   else valid_cmd (s_type s) = true /\ s_len s = Z.of_nat (length (s_body s)) + 8) /\
+  (* ghost fields of a slot written by the sequential write: owner 0, padding pieces numbered -1 *)
+  s_owner s = 0 /\ s_seq s = (if is_pad s then -1 else 0).
 
 (* the slots tile [h, t); a padding slot is always followed by the record it was claimed with *)
 Inductive chain (cp : Z) : Z -> Z -> list slot -> Prop :=
@@ -170,12 +172,12 @@ Proof. unfold abs_slots. apply flat_map_app. Qed.
 
 (* ---------------------------------------------------------------- write *)
 Lemma pad_slot_good cp tl pd : cap_ok cp -> 0 <= tl -> tl mod 8 = 0 -> pd = cp - tl mod cp ->
-  good_slot cp (pad_slot tl pd 0 0).
+  good_slot cp (pad_slot tl pd 0 (-1)).
 Proof. intros Hc H0 H8 ->. pose proof (mod_range cp tl Hc) as Hm. pose proof (cap_ok_range cp Hc).
   pose proof (cap_ok_mod8 cp Hc) as Hc8. pose proof (idx_mod8 cp tl Hc H8) as Hi8.
   assert (P8 : (cp - tl mod cp) mod 8 = 0).
   { rewrite Zminus_mod. rewrite Hc8, Hi8. reflexivity. }
-  unfold good_slot, pad_slot, is_pad. cbn [s_pos s_span s_len s_type s_body].
+  unfold good_slot, pad_slot, is_pad. cbn [s_pos s_span s_len s_type s_body s_owner s_seq].
   rewrite PAD_eq. replace (-1 =? -1) with true by reflexivity.
   repeat split; try lia.
   - symmetry. apply align8_id. assumption.
@@ -197,14 +199,14 @@ Lemma write_spec m st typ body :
          r_tail st' = r_tail st /\ r_slots st' = r_slots st) \/
       (1 <= typ /\ n <= cp / 8 /\ no_room cp (r_head st) (r_tail st) n = false /\ r = Ok 0 /\
          r_tail st' = r_tail st + rec_bytes n + wrap_pad cp (r_tail st) n /\
-         r_slots st' = r_slots st ++ pad_slots (r_tail st) (wrap_pad cp (r_tail st) n) 0 0 ++
+         r_slots st' = r_slots st ++ pad_slots (r_tail st) (wrap_pad cp (r_tail st) n) 0 (-1) ++
                        [mkSlot (r_tail st + wrap_pad cp (r_tail st) n) (rec_bytes n) (n + 8) typ body 0 0]) ).
 Proof.
   intros W Hb Hty. destruct W as [Hcap Hhc Hh8 Hch Hsz Hst].
   pose proof (cap_ok_range _ Hcap) as Hcr.
   pose proof (chain_le _ _ _ _ Hch) as Hle.
   pose proof (chain_mod8 _ _ _ _ Hch Hh8) as Ht8.
-  unfold write, write_as.
+  unfold write, write_as. change (- 1 - 0) with (-1).
   destruct (typ <? 1) eqn:T1.
   { exists st, (Err IllegalArg). repeat split; auto; try lia. left. repeat split; auto. lia. }
   set (n := Z.of_nat (length body)).
@@ -240,7 +242,7 @@ Proof.
     pose proof (mod_range (r_cap st) (r_tail st) Hcap) as Htm.
     assert (Hrec : good_slot (r_cap st)
               (mkSlot (r_tail st + wrap_pad (r_cap st) (r_tail st) n) (rec_bytes n) (n + 8) typ body 0 0)).
-    { unfold good_slot, is_pad. cbn [s_pos s_span s_len s_type s_body].
+    { unfold good_slot, is_pad. cbn [s_pos s_span s_len s_type s_body s_owner s_seq].
       destruct Hty as [Hty | Hty]; [lia |].
       rewrite (valid_cmd_not_pad _ Hty).
       assert (P8 : (r_tail st + wrap_pad (r_cap st) (r_tail st) n) mod 8 = 0).
@@ -263,13 +265,13 @@ Proof.
         + cbn [Z.eqb app]. rewrite ?Z.add_0_r in *.
           pose proof (chain_single _ _ Hrec NP) as C. cbn [s_pos s_span] in C. exact C.
         + replace (r_cap st - r_tail st mod r_cap st =? 0) with false by lia. cbn [app].
-          assert (Gp : good_slot (r_cap st) (pad_slot (r_tail st) (r_cap st - r_tail st mod r_cap st) 0 0))
+          assert (Gp : good_slot (r_cap st) (pad_slot (r_tail st) (r_cap st - r_tail st mod r_cap st) 0 (-1)))
             by (apply pad_slot_good; auto; lia).
           pose proof (chain_pad_rec _ _ _ Gp Hrec eq_refl NP) as C. cbn [pad_slot s_pos s_span] in C.
           replace (r_tail st + rec_bytes n + (r_cap st - r_tail st mod r_cap st))
             with (r_tail st + (r_cap st - r_tail st mod r_cap st) + rec_bytes n) by lia.
           exact C.
-      - destruct (pad_slots (r_tail st) (wrap_pad (r_cap st) (r_tail st) n) 0 0); discriminate.
+      - destruct (pad_slots (r_tail st) (wrap_pad (r_cap st) (r_tail st) n) 0 (-1)); discriminate.
       - unfold two31, two30 in *. lia. }
     cbn [set_tail set_hc set_slots r_cap r_head r_tail r_hc r_slots r_corr r_hb].
     repeat split; auto. right; right; right. repeat split; auto; lia.
@@ -314,7 +316,7 @@ Proof. intros F Hs. unfold pos_word. rewrite find_slot_skip by (auto; lia).
 Lemma pos_bytes_body cp pre s suf :
   Forall (fun x => s_pos x + s_span x <= s_pos s) pre -> good_slot cp s -> is_pad s = false ->
   pos_bytes (pre ++ s :: suf) (s_pos s + HL) (s_len s - HL) = s_body s.
-Proof. intros F G P. destruct G as (_ & _ & Hl & Hs & _ & Hk). rewrite P in Hk. destruct Hk as (_ & Hlen).
+Proof. intros F G P. destruct G as (_ & _ & Hl & Hs & _ & Hk & _). rewrite P in Hk. destruct Hk as (_ & Hlen).
   rewrite HL_eq. rewrite Hlen. replace (Z.of_nat (length (s_body s)) + 8 - 8) with (Z.of_nat (length (s_body s))) by lia.
   unfold pos_bytes. rewrite !Nat2Z.id.
   destruct (s_body s) as [| b bs] eqn:B.
@@ -355,7 +357,7 @@ Proof.
     assert (Hpre' : Forall (fun x => s_pos x + s_span x <= s_pos s) pre) by (rewrite Hpos; assumption).
     pose proof (good_span _ _ G) as (Hsp8 & _).
     pose proof (chain_le _ _ _ _ Hrest) as Hle.
-    pose proof G as (Hp0 & Hp8 & Hl & Hs & Hstr & Hk).
+    pose proof G as (Hp0 & Hp8 & Hl & Hs & Hstr & Hk & _).
     pose proof (mod_range cp (s_pos s) Hcap) as Hpm.
     rewrite <- Hpos. rewrite !pos_word_len by (auto; lia). rewrite !pos_word_type by (auto; lia).
     replace (s_len s <=? 0) with false by lia.
